@@ -105,12 +105,16 @@ def body_for(tmpl, n, tag):
         return tag + (ps[0] + ps[0] if ps else 'yy') + ''.join(ps[1:])
     if tmpl == 'nest':
         return tag + '\\def\\zzI##1{(##1)}\\zzI{%s}' % (ps[-1] if ps else 'k') + ''.join(ps[:-1])
+    if tmpl == 'nestnc':      # the inner definition is a \newcommand
+        return tag + '\\renewcommand\\zzI[1]{(##1)}\\zzI{%s}' % (ps[-1] if ps else 'k') + ''.join(ps[:-1])
+    if tmpl == 'nest3':       # three levels: ## and ####
+        return tag + '\\def\\zzI##1{\\def\\zzJ####1{<##1/####1%s>}}\\zzI{u}\\zzJ{v}' % (ps[0] if ps else '')
     if tmpl == 'brk':
         return tag + ''.join('[%s]' % p for p in ps) + '!'
     raise ValueError(tmpl)
 
 
-BODY_TMPLS = ['all', 'swap', 'dup', 'nest', 'brk', 'lit']
+BODY_TMPLS = ['all', 'swap', 'dup', 'nest', 'nestnc', 'nest3', 'brk', 'lit']
 
 
 def define(definer, name, pt, body):
@@ -170,7 +174,7 @@ def wrap(wrapper, core_):
     raise ValueError(wrapper)
 
 
-PRE = '\\def\\zzK{k}\\def\\zzW#1{(#1)}'
+PRE = '\\def\\zzK{k}\\def\\zzW#1{(#1)}\\newcommand\\zzI{i}'
 
 
 def spell(s):
